@@ -94,6 +94,7 @@ pub fn run(args: &Args, rep: &mut Report) {
             p.fallback = 0.3;
         }
         let path = format!("{}/a{}.agc", dir, i);
+        mon::set_case(i, jobj(&[("id", jstr(&id)), ("profile", jstr(profile())), ("params", p.json()), ("input", set.brief())]));
         rep.evaluations += 1;
         let r = catch_unwind(AssertUnwindSafe(|| drive::create(&path, &set, &p)));
         match r {
@@ -132,6 +133,7 @@ pub fn run(args: &Args, rep: &mut Report) {
         let mut rng = Rng::derive(args.seed, 0xC18B, i);
         p.threads = rng.usize(1, 8);
         let path = format!("{}/b{}.agc", dir, i);
+        mon::set_case(i, jobj(&[("id", jstr(&id)), ("profile", jstr(profile())), ("params", p.json()), ("input", set.brief())]));
         rep.evaluations += 1;
         match catch_unwind(AssertUnwindSafe(|| drive::create(&path, &set, &p))) {
             Ok(Ok(())) => {
